@@ -1,0 +1,46 @@
+//go:build verif
+
+// Verification hooks (build tag verif): read-only access to unexported parsers and
+// list entries of package stage for the harness under /verif.  Not compiled into
+// normal builds.
+
+package stage
+
+import "potano.layercake/fs"
+
+// VerifEntry is an exported image of lineInfo.
+type VerifEntry struct {
+	Ltype                                                       uint8
+	Name, Source, Target                                        string
+	Gid, Uid, AndMask, OrMask, Major, Minor                     uint32
+	Devtype                                                     byte
+	HasWildcard, HasGid, HasUid, HasDev, HasPerm, SkipIfAbsent  bool
+}
+
+func verifEntry(e lineInfo) VerifEntry {
+	return VerifEntry{e.ltype, e.name, e.source, e.target, e.gid, e.uid, e.andMask, e.orMask,
+		e.major, e.minor, e.devtype, e.hasWildcard, e.hasGid, e.hasUid, e.hasDev, e.hasPerm,
+		e.skipIfAbsent}
+}
+
+func VerifParseLine(line string, cursor fs.LineReader) (adding bool, entry VerifEntry, ok bool) {
+	a, e, k := parseLine(line, cursor)
+	return a, verifEntry(e), k
+}
+
+func VerifParseFields(line string) ([]string, error) {
+	return parseFields(line)
+}
+
+func VerifParseModString(str string) (andMask int32, orMask int32, err error) {
+	return parseModString(str)
+}
+
+// VerifEntries lists the entries of a finalized list (in the order of Names()).
+func (fl *FileList) VerifEntries() []VerifEntry {
+	out := make([]VerifEntry, len(fl.Files))
+	for i, e := range fl.Files {
+		out[i] = verifEntry(e)
+	}
+	return out
+}
